@@ -9,6 +9,8 @@ import (
 )
 
 type GenOpts struct {
+	// BigBlobs: now and then a bytes value of 32 KiB .. 70 KB (larger than block / pool sizes a codec may use)
+	BigBlobs bool
 	MaxDepth  int
 	NilJunk   bool // nil list elements, nil message map values, typed-nil wrappers, wrappers holding nil
 	Unknown   bool // unknown-field tails
@@ -62,6 +64,13 @@ func (o *GenOpts) Scalar(r *vschema.Rand, k vschema.Kind) *Val {
 	case vschema.Bytes:
 		if r.Chance(10) {
 			return VBlob(true, []byte(textPool[r.Intn(len(textPool))]))
+		}
+		if o.BigBlobs && r.Chance(6) {
+			b := make([]byte, []int{32767, 32768, 32769, 40000, 65536, 70001}[r.Intn(6)])
+			for i := range b {
+				b[i] = byte(i*31 + 7)
+			}
+			return VBlob(true, b)
 		}
 		switch r.Intn(8) {
 		case 0:
@@ -122,11 +131,15 @@ func UnknownTail(r *vschema.Rand, used map[int]bool, depth int) []byte {
 	for i := 0; i < n; i++ {
 		var num int
 		for {
-			switch r.Intn(4) {
+			switch r.Intn(5) {
 			case 0:
 				num = 1 + r.Intn(536870911)
 			case 1:
 				num = 536870911
+			case 2:
+				// numbers no schema can declare (19000..19999 are reserved for the protobuf implementation) but that are
+				// ordinary field numbers on the wire, and the tag-width boundaries
+				num = []int{18999, 19000, 19001, 19500, 19999, 20000, 15, 16, 2047, 2048, 262143, 262144, 33554431, 33554432}[r.Intn(14)]
 			default:
 				num = 1 + r.Intn(3000)
 			}
